@@ -182,9 +182,9 @@ def signature(key, items, active, res):
         return (f"{res['kind']}|loop(step not +-1, lower bound an expression)|"
                 f"{'+'.join(odd)}")
     if (res["kind"] == "not-transpose" and len(stmts) == 1
-            and subtracts_own_lhs(stmts[0]) and res.get("negated")
+            and subtracts_own_lhs(stmts[0])
             and res["classes"] == [f"{stmts[0][1][0]}.diag"]):
-        return "not-transpose|diagonal-entry-negated|assignment-subtracts-its-own-lhs"
+        return "not-transpose|diagonal-entry-wrong|assignment-subtracts-its-own-lhs"
     return f"{res['kind']}|{key}|act={','.join(active)}|{classes}"
 
 
@@ -236,16 +236,25 @@ def check_element(key, items, active, harness=False):
     if harness:
         from mc import c19_harness as H
         hout, detail = H.run_harness(_SCRATCH, _random_obj(), src, adj, got[2])
-        info["harness"] = hout
-        if res["verdict"] == "ok" and hout != "passed":
-            viol.append({
-                "key": ekey + "|harness",
-                "sig": f"harness-{hout}|{key}|act={act}",
-                "msg": f"kernel {key} with active variables {list(active)}: the "
-                       f"adjoint is the exact transpose of the tangent-linear "
-                       f"code (E1), but the generated test harness, compiled "
-                       f"with gfortran, gives '{hout}': {detail}. Body:\n{body}",
-                "case": case})
+        if not res["passive_constant"]:
+            # The harness sums passive arguments into both inner products
+            # "since [they] will remain constant" (PSyAD user guide): a kernel
+            # that updates a passive argument is outside that assumption.
+            info["harness"] = hout + "(kernel writes a passive argument: not judged)"
+        else:
+            info["harness"] = hout
+            if res["verdict"] == "ok" and hout != "passed":
+                viol.append({
+                    "key": ekey + "|harness",
+                    "sig": f"harness-{hout}|{key}|act={act}",
+                    "msg": f"kernel {key} with active variables {list(active)}: "
+                           f"the adjoint is the exact transpose of the "
+                           f"tangent-linear code (E1), but the generated test "
+                           f"harness, compiled with gfortran, gives '{hout}': "
+                           f"{detail}. Body:\n{body}",
+                    "case": case})
+            elif res["verdict"] != "ok" and hout == "passed":
+                info["harness"] = "passed-although-adjoint-wrong(not judged)"
     return ("viol" if viol else "ok"), viol, info
 
 
